@@ -76,6 +76,9 @@ func classes(f iogen.SeqFile) []string {
 		if f.Format == "fasta" && r.Len > f.Width {
 			seen["multi-line"] = true
 		}
+		if f.Format == "fasta" && f.Width >= 1<<31 && r.Len >= 2 {
+			seen["width-near-the-largest-int"] = true
+		}
 		if f.Format == "fasta" && f.Width > 0 && r.Len > 0 && r.Len%f.Width == 0 {
 			seen["len-multiple-of-width"] = true
 		}
@@ -147,7 +150,7 @@ func checkVerbs(c verbCase) *vlib.Failure {
 			q.Threshold = 0 // every letter is at or above the threshold: no letter is masked
 		}
 		switch {
-		case f.Format == "fasta" && c.UseW:
+		case f.Format == "fasta" && c.UseW && f.Width <= 100000: // fmt caps the width of a verb at a million
 			fmt.Fprintf(&buf, "%*a\n", f.Width, v)
 		case f.Format == "fasta":
 			fmt.Fprintf(&buf, "%a\n", v)
